@@ -105,9 +105,11 @@ func expand(s step, seed int) (frame []byte, headerLen int) {
 		if hb[1]&0x80 == 0 {
 			rp.Bug("masking key without the mask bit")
 		}
-		for i, k := range s.K {
+		for _, k := range s.K {
+			if k < 0 || k > 255 {
+				rp.Bug("masking key byte %d", k)
+			}
 			out = append(out, byte(k))
-			_ = i
 		}
 		m := make([]byte, len(pb))
 		for i := range pb {
@@ -186,13 +188,12 @@ type gotMsg struct {
 }
 
 type observed struct {
-	Msgs    []gotMsg
-	Err     error
-	Err2    error // second call after the failure
-	Msg2    bool  // the second call delivered something
-	Wrote   []byte
-	Wrote2  int // bytes written during the second call
-	Partial int // bytes of the message in progress handed out before the failure
+	Msgs   []gotMsg
+	Err    error
+	Err2   error // second call after the failure
+	Msg2   bool  // the second call delivered something
+	Wrote  []byte
+	Wrote2 int // bytes written during the second call
 }
 
 type variant struct {
@@ -246,8 +247,7 @@ func drive(cs *wsCase, wire []byte, v variant, seed int, maxMsgs int) observed {
 	for {
 		t, p, err := readOne(ws, v.API)
 		if err != nil {
-			o.Err = err
-			o.Partial = len(p)
+			o.Err = err // p may hold the part of a message read before the failure: it is not a delivered message
 			break
 		}
 		o.Msgs = append(o.Msgs, gotMsg{t, p})
@@ -257,10 +257,9 @@ func drive(cs *wsCase, wire []byte, v variant, seed int, maxMsgs int) observed {
 	}
 	before := a.Out.Len()
 	if o.Err != nil {
-		_, p, err := readOne(ws, v.API)
+		_, _, err := readOne(ws, v.API)
 		o.Err2 = err
 		o.Msg2 = err == nil
-		_ = p
 	}
 	o.Wrote = a.Out.Bytes()
 	o.Wrote2 = len(o.Wrote) - before
